@@ -22,8 +22,9 @@ EXTENDS EvmGas, Json, TLC
 Trace == ndJsonDeserialize("trace.ndjson")
 JT == JsonDeserialize("jumptable.json")
 
-VARIABLES l, bad, fst, limit
-tvars == <<gvars, l, bad, fst, limit>>
+VARIABLES l, bad, fst, limit,
+          mcase                  \* the memory-operand case of the current run (classes of EvmGasGen), op "" if none
+tvars == <<gvars, l, bad, fst, limit, mcase>>
 
 OpIdx(op) == {i \in 1..Len(JT.ops) : JT.ops[i].op = op}
 Known(op) == OpIdx(op) # {}
@@ -66,8 +67,18 @@ JudgeExit(e) ==
 
 InFrame(e) == fst # <<>> /\ fst[Len(fst)].depth = e.depth
 
+(* small operand classes of EvmGasGen as numbers; the huge ones can only end out of gas *)
+SmallClass(c) == CASE c = "0" -> 0 [] c = "1" -> 1 [] c = "31" -> 31 [] c = "32" -> 32 [] c = "33" -> 33
+                   [] c = "127" -> 127 [] c = "128" -> 128 [] c = "160" -> 160 [] OTHER -> 0 - 1
+(* AUTH reads memory[offset, offset + length) when length >= 128: a step that completes has that range *)
+(* inside the (paid-for) memory                                                                         *)
+AuthRangeOK(e) ==
+  (e.op = 246 /\ mcase.op = "auth" /\ SmallClass(mcase.a) >= 0 /\ SmallClass(mcase.c) >= 128)
+    => e.ml1 >= SmallClass(mcase.a) + SmallClass(mcase.c)
+
 JudgeStep(e) ==
   LET op == e.op IN
+  Tag(AuthRangeOK(e), "Inv.memory-range-not-expanded:op246") \o
   Tag(Le(e.g0, e.pg) /\ Le(e.g1, e.g0) /\ Le(e.g2, e.g0), "Inv.gas-decreases") \o
   Tag(InFrame(e) => Le(e.g0, fst[Len(fst)].gas), "Inv.gas-within-frame") \o
   Tag(e.sl0 <= StackLim /\ e.sl1 <= StackLim, "Inv.stack-limit") \o
@@ -122,7 +133,7 @@ Judge(e) ==
     [] e.event = "Precompile" -> JudgePrecompile(e)
     [] OTHER -> <<"Proj.unknown-event">>
 
-TraceInit == l = 1 /\ bad = <<>> /\ fst = <<>> /\ limit = <<>> /\ frames = <<>> /\ burnt = 0 /\ ended = TRUE
+TraceInit == l = 1 /\ bad = <<>> /\ fst = <<>> /\ limit = <<>> /\ mcase = [op |-> "", a |-> "", b |-> "", c |-> ""] /\ frames = <<>> /\ burnt = 0 /\ ended = TRUE
 
 TraceNext ==
   /\ l <= Len(Trace)
@@ -130,6 +141,7 @@ TraceNext ==
   /\ LET e == Trace[l]
          j == Judge(e)
      IN /\ bad' = bad \o [i \in 1..Len(j) |-> <<l, e.event, j[i]>>]
+        /\ mcase' = (IF e.event = "Begin" THEN e.mcase ELSE mcase)
         /\ CASE e.event = "Begin" -> limit' = e.gas /\ fst' = <<>>
              [] e.event = "Enter" -> fst' = Append(fst, [depth |-> e.depth, gas |-> e.gas]) /\ UNCHANGED limit
              [] e.event = "Exit"  -> fst' = (IF fst = <<>> THEN fst ELSE SubSeq(fst, 1, Len(fst) - 1)) /\ UNCHANGED limit
